@@ -56,9 +56,12 @@ func init() {
 		}
 		discard := false
 		ast.Inspect(ss.Body, func(n ast.Node) bool {
-			if ifs, ok := n.(*ast.IfStmt); ok && r.Src(ifs.Cond) == "prevSess != nil" {
+			// `if <x> != nil { … <x>.allSubscribes() … topicMgr.unsubscribe … <x>.close() }` for any local name <x>
+			// (extension mqtt: rename-robust; the body of setSession is also tied by translation, facts_c16_ir.go)
+			if ifs, ok := n.(*ast.IfStmt); ok && strings.HasSuffix(r.Src(ifs.Cond), " != nil") {
+				x := strings.TrimSuffix(r.Src(ifs.Cond), " != nil")
 				b := r.Src(ifs.Body)
-				if strings.Contains(b, "prevSess.close()") && strings.Contains(b, "topicMgr.unsubscribe") && strings.Contains(b, "prevSess.allSubscribes()") {
+				if strings.Contains(b, x+".close()") && strings.Contains(b, "topicMgr.unsubscribe") && strings.Contains(b, x+".allSubscribes()") {
 					discard = true
 				}
 			}
@@ -90,7 +93,7 @@ func init() {
 		}
 		rcOK := false
 		ast.Inspect(rc.Body, func(n ast.Node) bool {
-			if ifs, ok := n.(*ast.IfStmt); ok && r.Src(ifs.Cond) == "val.disconnected()" && strings.Contains(r.Src(ifs.Body), "delete(b.clients, clientID)") {
+			if ifs, ok := n.(*ast.IfStmt); ok && strings.HasSuffix(r.Src(ifs.Cond), ".disconnected()") && !strings.HasPrefix(r.Src(ifs.Cond), "!") && strings.Contains(r.Src(ifs.Body), "delete(b.clients, clientID)") {
 				rcOK = true
 			}
 			return true
